@@ -26,7 +26,18 @@ fn draw_env<S: Src>(s: &mut S) -> EnvStr {
 }
 
 /// LISTEN_FDNAMES candidates
-pub const FDNAMES: [&str; 6] = ["varlink", "a:varlink", "a:b", "varlink:x", "", "a:b:varlink"];
+pub const FDNAMES: [&str; 9] = [
+    "varlink",
+    "a:varlink",
+    "a:b",
+    "varlink:x",
+    "",
+    "a:b:varlink",
+    // names that merely contain / start with / end with "varlink"
+    "varlinkx:varlink",
+    "a:varlinkx",
+    "xvarlink:b",
+];
 
 #[derive(Clone, Copy, Debug)]
 pub struct Activation {
